@@ -251,6 +251,9 @@ func actionLists(thorough bool) [][]Action {
 	for _, u := range []string{"http://h/p", "http://h/p?x=1,2", "http://h/it's"} {
 		out = append(out, append(acts("id=1", "phase=2", "status=302", "log"), Action{"redirect", u}))
 		out = append(out, append([]Action{{"redirect", u}}, acts("status=307", "id=1", "phase=1")...))
+		// a disruptive action that replaces an earlier one of the same list (the last one decides, its value intact)
+		out = append(out, append(acts("id=1", "phase=2", "deny", "status=302", "log"), Action{"redirect", u}))
+		out = append(out, append(acts("id=1", "phase=1", "pass", "status=307"), Action{"redirect", u}, Action{"log", ""}))
 	}
 	// pairs of payloads
 	second := []Action{{"tag", "t2"}, {"msg", "a,b"}, {"logdata", "it's"}, {"setvar", "tx.j=a,b"}, {"t", "none"}}
